@@ -149,6 +149,13 @@ class CallsMixin:
                 # [x for x in L]: a copy of L (same length, same items)
                 ln0, arr0 = self.seq_parts(srcv, st)
                 return self.mk_list(st, elt.ty, ln0, arr0, kind=kind)
+            if self.contract.get('comprehension_as_array') and not st.guards:
+                # opt-in per contract: the mapped list is a fresh array constant with a defining axiom instead of a
+                # lambda term (a lambda under the quantified facts of the path makes z3 answer `unknown` at once --
+                # incomplete array theory -- and is not exported to cvc5)
+                arr = z3.Const(fresh_name('mapped'), z3.ArraySort(z3.IntSort(), sort_of(elt.ty)))
+                st.assume(z3.ForAll([i], z3.Select(arr, i) == elt_t))
+                return self.mk_list(st, elt.ty, m.n, arr, kind=kind)
             return self.mk_list(st, elt.ty, m.n, z3.Lambda([i], elt_t), kind=kind)
         # filtered comprehension: characterised by an order-preserving bijection between kept source indices and
         # result indices (consequence of Python's semantics)
